@@ -78,6 +78,12 @@ func (a api) UpdatesGetState(context.Context) (*tg.UpdatesState, error) {
 }
 
 func (a api) UpdatesGetDifference(_ context.Context, r *tg.UpdatesGetDifferenceRequest) (tg.UpdatesDifferenceClass, error) {
+	if r.Date != Date0 {
+		// restoreAccessHash: asks with an older date only to learn a channel's access hash; the fake
+		// server knows none for unknown channels
+		a.e.record(Event{Kind: "A", Key: "restore", Vals: []int{r.Pts, r.Qts}}, Snapshot{})
+		return &tg.UpdatesDifferenceEmpty{Date: Date0, Seq: 0}, nil
+	}
 	a.e.record(Event{Kind: "A", Key: "diff", Vals: []int{r.Pts, r.Qts}}, Snapshot{})
 	return a.e.W.commonDifference(r.Pts, r.Qts), nil
 }
@@ -207,6 +213,20 @@ func (e *Env) Affected(channelID int64, pts, count int) {
 	defer cancel()
 	if err := e.M.HandleAffected(ctx, channelID, pts, count); err != nil && e.Err == "" {
 		e.Err = "Manager.HandleAffected: " + err.Error()
+	}
+}
+
+// waitExtrasServed waits until the extras pending for seq have gone out with an answer.
+func (e *Env) waitExtrasServed(seq string) {
+	deadline := time.Now().Add(10 * time.Second)
+	for time.Now().Before(deadline) {
+		e.W.mu.Lock()
+		n := len(e.W.Extra[seq])
+		e.W.mu.Unlock()
+		if n == 0 {
+			return
+		}
+		time.Sleep(20 * time.Microsecond)
 	}
 }
 
